@@ -11,7 +11,7 @@
 From CB Require Import Spec Unstable.
 From Coq Require Import Permutation.
 From CBP Require Import Step RefDefs C02Lemmas Arith AbsLemmas AllOps FaultDefs FaultPrims FaultDropA FaultDropB FaultUser
-     Iters DrainP ExtendIo CmpHash Ctors PhysMoves UnstableEq Access Views RefTruncate FillExtend.
+     Iters DrainP ExtendIo CmpHash Ctors PhysMoves UnstableEq Access Views RefTruncate FillExtend FaultFrame SpecCorollaries.
 
 
 Theorem C05_truncate_back :
@@ -93,6 +93,21 @@ Theorem C05_drain_all :
   forall script, fault_safe (ODrain BUnb BUnb script false) FDrop.
 Proof. exact (drain_all_fault). Qed.
 Print Assumptions C05_drain_all.
+
+Theorem C05_frame :
+  forall o fk s w k,
+  may_call o fk = false -> fault w = Some (fk, k) ->
+  exec o s w =
+    let '(r, s', w') := exec o s (w_fault w None) in (r, s', w_fault w' (Some (fk, k))).
+Proof. exact (fault_frame). Qed.
+Print Assumptions C05_frame.
+
+Theorem C05_frame_refines :
+  forall o fk s w k,
+  may_call o fk = false -> WF s -> op_ok s o -> fault w = Some (fk, k) ->
+  refines_at_armed o s w fk k.
+Proof. exact (fault_frame_refines). Qed.
+Print Assumptions C05_frame_refines.
 
 Theorem C05_drain :
   forall sb eb script, fault_safe_when (fun s => spec_bounds (size s) sb eb <> None) (ODrain sb eb script false) FDrop.
